@@ -664,6 +664,104 @@ func concurrentGets(name string, getters int, extra string) func() {
 	}
 }
 
+// ---------------------------------------------------------------- 3b. concurrent Add / Remove on one name
+
+// The registry behaves as a map also when two callers change the same name at once: what Add and Remove return
+// and what the change callback reports are the transitions of SOME one-at-a-time order (the callback runs after
+// the lock is released, so its order is not the commit order: any order that chains from the initial client to
+// the final registry content is accepted).
+func concurrentChanges(name string, ops []string) func() {
+	return func() {
+		var mu sync.Mutex
+		var changes []router.Change
+		r := router.NewRouter(router.WithOnChange(func(c router.Change) {
+			mu.Lock()
+			changes = append(changes, c)
+			mu.Unlock()
+		}))
+		r.Add("n", "a")
+		changes = nil
+		rets := make([]any, len(ops))
+		var wg sync.WaitGroup
+		for i, o := range ops {
+			i, o := i, o
+			wg.Add(1)
+			go func() {
+				defer wg.Done()
+				if o == "remove" {
+					rets[i] = r.Remove("n")
+				} else {
+					rets[i] = r.Add("n", o)
+				}
+			}()
+		}
+		wg.Wait()
+		var final any
+		if r.Has("n") {
+			final, _ = r.Get("n")
+		}
+		show := func() string {
+			var cs []string
+			for _, c := range changes {
+				cs = append(cs, fmt.Sprintf("%v->%v", c.Old, c.New))
+			}
+			return fmt.Sprintf("returns %v, reported changes %v, registry finally holds %v", rets, cs, final)
+		}
+		// every operation's own report
+		used := make([]bool, len(changes))
+		for i, o := range ops {
+			if o == "remove" && rets[i] == nil {
+				continue // nothing there to remove: nothing to report
+			}
+			var wantNew any
+			if o != "remove" {
+				wantNew = o
+			}
+			found := false
+			for k, c := range changes {
+				if !used[k] && c.Old == rets[i] && c.New == wantNew && c.Name == "n" && !c.Auto {
+					used[k], found = true, true
+					break
+				}
+			}
+			if !found {
+				verifrt.Logf("FAIL concurrent-change-report %s ## operation %d (%s) returned %v but no change %v->%v was reported: %s", name, i, o, rets[i], rets[i], wantNew, show())
+			}
+		}
+		for k, u := range used {
+			if !u {
+				verifrt.Logf("FAIL concurrent-change-report %s ## reported change %v->%v belongs to no operation: %s", name, changes[k].Old, changes[k].New, show())
+			}
+		}
+		// some order of the reported changes leads from "a" to the final content
+		ok := false
+		var perm func(cur any, left []int)
+		perm = func(cur any, left []int) {
+			if len(left) == 0 {
+				if cur == final {
+					ok = true
+				}
+				return
+			}
+			for k, ci := range left {
+				if changes[ci].Old == cur {
+					rest := append(append([]int{}, left[:k]...), left[k+1:]...)
+					perm(changes[ci].New, rest)
+				}
+			}
+		}
+		idx := make([]int, len(changes))
+		for i := range idx {
+			idx[i] = i
+		}
+		perm("a", idx)
+		if !ok {
+			verifrt.Logf("FAIL concurrent-change-chain %s ## the reported changes are the transitions of no one-at-a-time order from \"a\": %s", name, show())
+		}
+		verifrt.Logf("OUT %s", show())
+	}
+}
+
 // ---------------------------------------------------------------- 4. default name interceptor
 
 type oneStream struct {
@@ -741,6 +839,10 @@ func main() {
 			name := fmt.Sprintf("concurrent-gets/%d getters/%s", n, extra)
 			h.Sched(name, -1, -1, concurrentGets(name, n, extra), hx.StdOracle)
 		}
+	}
+	for _, ops := range [][]string{{"remove", "remove"}, {"remove", "b"}, {"b", "c"}, {"remove", "b", "remove"}} {
+		name := "concurrent-changes/" + strings.Join(ops, "||")
+		h.Sched(name, -1, -1, concurrentChanges(name, ops), hx.StdOracle)
 	}
 	h.Seq("forwarding", forwarding)
 	h.Run()
